@@ -197,6 +197,15 @@ impl TaskLogWriter {
 
 pub(super) fn truncate_utf8(bytes: &[u8], max_bytes: usize) -> (String, bool, usize) {
     if bytes.len() <= max_bytes {
+        // A page that ends inside a multi-byte character stops before it, so that the next page
+        // (read from offset + used) starts with the whole character instead of both pages
+        // decoding their half lossily.
+        if let Err(err) = std::str::from_utf8(bytes) {
+            let end = err.valid_up_to();
+            if err.error_len().is_none() && end > 0 {
+                return (String::from_utf8_lossy(&bytes[..end]).into_owned(), true, end);
+            }
+        }
         return (
             String::from_utf8_lossy(bytes).into_owned(),
             false,
